@@ -191,15 +191,18 @@ def load_known():
     return known
 
 
-def shrink(mod, v):
+def shrink(mod, v, deadline=None):
     """Greedy deterministic reduction with the harness's own oracle: keep a
-    simpler candidate only if it still violates with the same diagnosis."""
+    simpler candidate only if it still violates with the same diagnosis.
+    (Reporting aid only: past `deadline` the case is reported as it stands.)"""
     cand = getattr(mod, "candidates", None)
     if cand is None:
         return v
     cur = v
     for _ in range(200):
         for c in cand(cur["case"]):
+            if deadline is not None and time.time() > deadline:
+                return cur
             try:
                 vs = mod.replay(c)
             except Exception:  # noqa: BLE001
@@ -269,13 +272,16 @@ def run_check(pid, tier):
         impl.ABORT_FLAG.value = 0
         impl.WATCHDOG_S = min(impl.WATCHDOG_S, 3.0)
         shrunk_budget = 0
+    deadline = time.time() + float(os.environ.get("VERIF_SHRINK_S", "150"))
     for s, v in by_sig.items():
         if s in known:
             hits[s] += 1
             continue
+        if time.time() > deadline:
+            shrunk_budget = 0
         if shrunk_budget > 0 and not (isinstance(v["case"], dict) and v["case"].get("generic")):
             shrunk_budget -= 1
-            v2 = shrink(mod, v)
+            v2 = shrink(mod, v, deadline)
             s2 = sig_of(v2)
             if s2 in known:
                 hits[s2] += 1
@@ -288,7 +294,12 @@ def run_check(pid, tier):
     exit_code = 0
     reported, unreproduced = [], []
     max_rep = 4 if hangs else 25
+    confirm_deadline = time.time() + float(os.environ.get("VERIF_CONFIRM_S", "300"))
+    skipped = 0
     for s, v in list(new.items())[:max_rep]:
+        if reported and time.time() > confirm_deadline:
+            skipped += 1          # enough confirmed violations are reported; the rest is only counted
+            continue
         path = write_replay(pid, tier, seed, v)
         ok, tail = confirm_fresh(path, hangs)
         if ok:
@@ -300,8 +311,8 @@ def run_check(pid, tier):
             unreproduced.append({"replay": path, "tail": tail[-300:]})
             print("WARNING: case did not reproduce in a fresh interpreter (state leaked "
                   "between executions?): %s" % path)
-    if len(new) > max_rep:
-        print("note: %d further distinct violating cases not written out" % (len(new) - max_rep))
+    if len(new) > max_rep or skipped:
+        print("note: %d further distinct violating cases not written out" % (max(0, len(new) - max_rep) + skipped))
     for s, n in hits.items():
         fid, desc = known[s]
         print("KNOWN-FINDING: property=%s %s %s" % (pid, fid, desc))
